@@ -64,6 +64,38 @@ def run(chk):
                 expect = None if "svg" in fmt else keep
                 for p in validate_font.validate(data, expect_names=expect, ctx=f"{fmt} keep={keep}: "):
                     chk.violation(p, dict(replay, svgs=[s.svg_text for s in srcs][:4]))
+    # OT-SVG documents depend on glyph NAMES (grouping, sorted order, ids) as well as on sharing: sequences that are
+    # prefixes of one another (keycap vs its base, a person vs a family), names that sort differently from the input
+    # order, letters, in every input order, with shapes shared across glyphs
+    pool = [(0x23,), (0x23, 0x20E3), (0x1F468,), (0x1F468, 0x200D, 0x1F469), (0x1F469,), (0x2764,), (0x2764, 0xFE0F),
+            (0x61,), (0x61, 0x62), (0x1F600,), (0x1F1E6, 0x1F1E7), (0x1F1E6,), (0x39, 0x20E3)]
+    for k in range(40 if quick else 800):
+        r = common.rng("C07", "names", k)
+        n = r.randrange(2, 6)
+        cps = r.sample(pool, n)
+        if k % 2 == 0:   # make sure a prefix pair is present, longer name first or second
+            pair = r.choice([((0x23, 0x20E3), (0x23,)), ((0x1F468, 0x200D, 0x1F469), (0x1F468,)), ((0x61, 0x62), (0x61,)), ((0x2764, 0xFE0F), (0x2764,))])
+            cps = [c for c in cps if c not in pair][: n - 2]
+            pair = list(pair)
+            if k % 4 == 0:
+                pair.reverse()
+            cps = pair + cps
+            if k % 8 >= 4:
+                r.shuffle(cps)
+        glyphs = S.random_scenario(r, n_glyphs=len(cps), reuse_bias=0.8, allow_special=False)
+        glyphs = [(cps[i], vb, specs) for i, (_, vb, specs) in enumerate(glyphs)]
+        fmt = "picosvg" if k % 3 else "picosvgz"
+        replay = {"format": fmt, "family": "names", "codepoints": [list(c) for c in cps], "scenario_seed": [chk.seed, k]}
+        chk.case(key=("names", k), nontrivial=True)
+        chk.traces_validated += 1
+        total += 1
+        try:
+            data, cfgkw, srcs = build_bytes(fmt, glyphs, k % 2 == 0, r)
+        except Exception as e:
+            chk.violation(f"{fmt}: valid sources fail to build: {type(e).__name__}: {str(e)[:160]}", replay)
+            continue
+        for p in validate_font.validate(data, expect_names=None, ctx=f"{fmt} names {k}: "):
+            chk.violation(p, dict(replay, svgs=[s.svg_text for s in srcs][:4]))
     chk.notes["fonts_validated_inprocess"] = total
     chk.sample({"formats": FORMATS, "scenarios": n_sc})
     # maximum_color outputs
